@@ -1,3 +1,4 @@
+import Mqtt5V.Proofs.TraceIn6
 import Mqtt5V.Proofs.Replies
 /-! # C04 — inbound QoS 2 exactly once (waiter core)
 
@@ -43,5 +44,41 @@ theorem pubrel_completes_its_waiter_only (r : R) (p t : Nat) :
   | some h =>
     obtain ⟨hm, hc, hp⟩ := find_sameKey hf
     exact Or.inr ⟨h, hm, hc, hp, rfl⟩
+
+/-! ## the composed client model, inbound side (`Model/TraceIn.lean`)
+One labelled transition system for the path of a PUBLISH the broker delivers (`read_message_op` → `publish_rec_op` → send queue / reply
+map → receive channel → `async_receive`).  The tie: `lib/trace_check.py` replays every H-client transcript of the real client through the
+compiled model (`mdrv tracein`).  The theorem holds for EVERY event list the model accepts. -/
+section ComposedModel
+open Mqtt5V.Model
+
+/-- **C04 end to end, every accepted history**, per broker packet identifier `p` and after every prefix: at most as many PUBACKs written as
+QoS 1 PUBLISHes received for `p`; at most as many PUBRECs as QoS 2 PUBLISHes; at most as many PUBCOMPs as well-formed PUBRELs received —
+never a PUBCOMP before its PUBREL; and at most as many QoS 2 messages of `p` handed to the application as PUBRELs received: a PUBLISH the
+broker repeats (DUP) before its PUBREL, on the same or a later connection, is not delivered a second time -/
+theorem composed_inbound_acks_justified (tr pre post : List TraceIn.Ev) (hacc : TraceIn.accepts tr = true) (hsplit : tr = pre ++ post) (p : Nat) :
+    TraceIn.cnt (TraceIn.isPuback p) pre ≤ TraceIn.cnt (TraceIn.isRxPub 1 p) pre ∧
+    TraceIn.cnt (TraceIn.isPubrec p) pre ≤ TraceIn.cnt (TraceIn.isRxPub 2 p) pre ∧
+    TraceIn.cnt (TraceIn.isPubcomp p) pre ≤ TraceIn.cnt (TraceIn.isGoodRel p) pre ∧
+    TraceIn.cnt (TraceIn.isDeliver2 p) pre ≤ TraceIn.cnt (TraceIn.isGoodRel p) pre :=
+  Mqtt5V.Proofs.TraceIn.inbound_acks_justified hacc pre post hsplit p
+
+/-- **C04 end to end (content)**: after every prefix, a message has been handed to the application at most as often as a PUBLISH with
+exactly this QoS, packet identifier and content (`msg` = identity of topic, payload and properties) was received: nothing is delivered that
+the broker did not send, nothing is altered on the way, and the client's own queues never duplicate a message -/
+theorem composed_delivered_was_received (tr pre post : List TraceIn.Ev) (hacc : TraceIn.accepts tr = true) (hsplit : tr = pre ++ post) (q p m : Nat) :
+    TraceIn.cnt (TraceIn.isDeliverMsg q p m) pre ≤ TraceIn.cnt (TraceIn.isRxPubMsg q p m) pre :=
+  Mqtt5V.Proofs.TraceIn.delivered_was_received hacc pre post hsplit q p m
+
+/-- non-vacuity: a QoS 2 message repeated by the broker after a reconnect (the first PUBREC was lost with the connection) is delivered once … -/
+example : TraceIn.accepts [.connUp true, .rxPub 2 7 1, .wr, .pk (.pubrec 7), .connUp true, .wrFail, .rxPub 2 7 1, .wr, .pk (.pubrec 7), .wrOk,
+    .rxRel 7 true, .wr, .pk (.pubcomp 7), .wrOk, .deliver 2 7 1] = true := by decide
+/-- … a second delivery, a PUBCOMP without PUBREL, or a delivery before the PUBCOMP was written are refused -/
+example : TraceIn.accepts [.connUp true, .rxPub 2 7 1, .wr, .pk (.pubrec 7), .wrOk, .rxPub 2 7 1, .wr, .pk (.pubrec 7), .wrOk,
+    .rxRel 7 true, .wr, .pk (.pubcomp 7), .wrOk, .deliver 2 7 1, .deliver 2 7 1] = false := by decide
+example : TraceIn.accepts [.connUp true, .rxPub 2 7 1, .wr, .pk (.pubrec 7), .wrOk, .wr, .pk (.pubcomp 7)] = false := by decide
+example : TraceIn.accepts [.connUp true, .rxPub 2 7 1, .wr, .pk (.pubrec 7), .wrOk, .rxRel 7 true, .deliver 2 7 1] = false := by decide
+
+end ComposedModel
 
 end Mqtt5V.Props.C04
